@@ -621,7 +621,8 @@ def lowerbound_helpers_on_unvalidated_input(prog, rep, RID):
             raise AnalysisError(f"{cname}._get_lowerbound_with_min_gen_set: MinGenSet call not found")
         key = f"{cname}._get_lowerbound_with_min_gen_set:invalid-flows-give-no-bound"
         guards = []
-        for st in f.node.body:
+        from rules.common import split_or_return_guards
+        for st in split_or_return_guards(f.node).body:
             if getattr(st, "lineno", 0) >= calls[0].lineno:
                 break
             if isinstance(st, ast.If) and not st.orelse and st.body and isinstance(st.body[-1], ast.Return) and isinstance(st.test, ast.Call) and \
@@ -662,10 +663,16 @@ def lowerbound_helpers_on_unvalidated_input(prog, rep, RID):
     # (c) the count of distinct weights in get_lowerbound_k converts with int(): only finite values may get there
     f = prog.own_method("MinFlowDecomp", "get_lowerbound_k")
     key = "MinFlowDecomp.get_lowerbound_k:int-of-finite-values"
-    ints = [c for c in ast.walk(f.node) if isinstance(c, ast.Call) and dotted(c.func) == "int" and len(c.args) == 1 and
+    # (accumulator loops are read as the comprehension they compute; locals naming the value are written out)
+    from sa.mir import comprehensionise
+    from rules.common import all_local_defs, substitute_locals
+    folded = ast.Module(body=comprehensionise(f.node.body), type_ignores=[])
+    ints = [c for c in ast.walk(folded) if isinstance(c, ast.Call) and dotted(c.func) == "int" and len(c.args) == 1 and
             any(isinstance(x_, ast.Subscript) and "flow_attr" in norm(x_.slice) for x_ in ast.walk(c.args[0]))]
     for c in ints:
-        comp = [n for n in ast.walk(f.node) if isinstance(n, (ast.SetComp, ast.ListComp, ast.GeneratorExp)) and any(x_ is c for x_ in ast.walk(n.elt))]
+        comp = [n for n in ast.walk(folded) if isinstance(n, (ast.SetComp, ast.ListComp, ast.GeneratorExp)) and any(x_ is c for x_ in ast.walk(n.elt))]
+        if not comp:
+            raise AnalysisError("MinFlowDecomp.get_lowerbound_k: int(<flow value>) outside a comprehension / accumulator loop: not recognised")
         conds = [t for n in comp for g_ in n.generators for t in g_.ifs]
         flat = []
         for t in conds:
